@@ -12,6 +12,7 @@ type PropSpec struct {
 	Assumptions []string
 	Replay      map[string]*ReplaySpec
 	Harness     []string // harness file prefixes (default: the property id)
+	WitnessReplay int // number of passing-path witnesses replayed natively per run (0 = none)
 	AttributeByReplay bool // violations labelled for a sibling property count here iff the native replay shows this property's oracle failing
 	solverDesc  string
 }
@@ -36,7 +37,12 @@ func (s *PropSpec) maxWitnesses() int {
 
 var specs = map[string]*PropSpec{}
 
-func register(s *PropSpec) { specs[s.ID] = s }
+func register(s *PropSpec) {
+	if s.WitnessReplay == 0 {
+		s.WitnessReplay = 4
+	}
+	specs[s.ID] = s
+}
 
 func init() {
 	register(&PropSpec{
